@@ -16,6 +16,7 @@ import OcVerif.Driver.Sched
 import OcVerif.Driver.Pool
 import OcVerif.Driver.Join
 import OcVerif.Driver.Rt
+import OcVerif.Driver.MPool
 import OcVerif.Driver.Once
 import OcVerif.Driver.Sleepers
 import OcVerif.Driver.Pre
@@ -49,6 +50,7 @@ def dispatch (comp : String) : Option (String → String → Verdict) :=
   | "pool" => some Driver.Pool.drive
   | "join" => some Driver.Join.drive
   | "rt" => some Driver.Rt.drive
+  | "mpool" => some Driver.MPool.drive
   | "once" => some Driver.Once.drive
   | "sleepers" => some Driver.Sleepers.drive
   | "pre" => some Driver.Pre.drive
